@@ -468,7 +468,11 @@ func (c *decCtx) malformed(mi *msgInfo, b []byte, class string) {
 	o.nontrivial(id + "/" + class + "/" + strings.Fields(res)[0] + "/" + hx(b[:k]))
 	o.withKey(key).prop("C06", res != "panic", fmt.Sprintf("Unmarshal(%s) into %s panics", hx(b), id))
 	// rendering the result costs memory too: the bound is deliberately generous
-	o.withKey(key).prop("C06", alloc <= uint64(16384*len(b)+(4<<20)), fmt.Sprintf("Unmarshal of %d bytes into %s allocated %d bytes", len(b), id, alloc))
+	bound := uint64(16384*len(b) + (4 << 20))
+	if class == "mapoverrun" { // these inputs must be rejected early: anything near the input size is suspicious
+		bound = uint64(512*len(b) + (256 << 10))
+	}
+	o.withKey(key).prop("C06", alloc <= bound, fmt.Sprintf("Unmarshal of %d bytes (%s) into %s allocated %d bytes (class %s)", len(b), hx(b[:minInt(len(b), 48)]), id, alloc, class))
 	if strings.HasPrefix(res, "ok") && class != "deep" { // (sizing a 10^4-deep message is quadratic: kept out)
 		var pan interface{}
 		func() {
@@ -619,6 +623,70 @@ func engineDecode(cfg config, o *out) {
 					c.malformed(mi, append(b, 0x01, 0x00, 0x00, 0x00, 0x00, 0x00, 0x00, 0x00), "bigtag")
 				}
 			}
+			// map entries whose key or value claims the bytes that FOLLOW the entry (each later record is read again by the
+			// enclosing loop if the subfield is bounded by the buffer instead of the entry): windows over n records
+			for _, fi := range mi.fields {
+				fd := fi.fd
+				if !fd.IsMap() {
+					continue
+				}
+				for _, n := range []int{2, 5, 18, 300} {
+					for variant := 0; variant < 3; variant++ {
+						var recs [][]byte
+						ok := true
+						for i := 0; i < n && ok; i++ {
+							// the entry declares only its own header bytes; the subfield length covers everything after it
+							var sub []byte
+							switch variant {
+							case 0: // over-long key (length-delimited keys only)
+								if fd.MapKey().Kind() != protoreflect.StringKind {
+									ok = false
+									continue
+								}
+								sub = protowire.AppendTag(nil, 1, protowire.BytesType)
+							case 1: // over-long value (length-delimited values only)
+								k := fd.MapValue().Kind()
+								if k != protoreflect.StringKind && k != protoreflect.BytesKind && k != protoreflect.MessageKind {
+									ok = false
+									continue
+								}
+								sub = protowire.AppendTag(nil, 2, protowire.BytesType)
+							case 2: // a varint / fixed subfield cut by the entry's end
+								sub = protowire.AppendTag(nil, 1, scalarWireType(fd.MapKey().Kind()))
+								if fd.MapKey().Kind() == protoreflect.StringKind {
+									sub = protowire.AppendTag(nil, 2, scalarWireType(fd.MapValue().Kind()))
+								}
+							}
+							recs = append(recs, sub)
+						}
+						if !ok || n > 40 && variant == 2 {
+							continue
+						}
+						// assemble back to front so that every window length is known
+						var tail []byte
+						for i := n - 1; i >= 0; i-- {
+							sub := recs[i]
+							var rec []byte
+							if variant == 2 {
+								rec = protowire.AppendTag(nil, fd.Number(), protowire.BytesType)
+								rec = protowire.AppendVarint(rec, uint64(len(sub)))
+								rec = append(rec, sub...)
+								rec = append(rec, 0x80, 0x80, 0x01, 0x00, 0x00, 0x00, 0x00, 0x00, 0x00)[:len(rec)+2+i%7]
+							} else {
+								lenb := protowire.AppendVarint(nil, uint64(len(tail)))
+								rec = protowire.AppendTag(nil, fd.Number(), protowire.BytesType)
+								rec = protowire.AppendVarint(rec, uint64(len(sub)+len(lenb)))
+								rec = append(rec, sub...)
+								rec = append(rec, lenb...)
+							}
+							tail = append(rec, tail...)
+						}
+						if len(tail) < 1<<16 {
+							c.malformed(mi, tail, "mapoverrun")
+						}
+					}
+				}
+			}
 			// random bytes
 			nr := 40
 			if cfg.thorough() {
@@ -677,4 +745,11 @@ func diffCtx(a, b string) string {
 		return s[lo:hi]
 	}
 	return fmt.Sprintf("[impl ...%s... | ref ...%s...]", cut(a), cut(b))
+}
+
+func minInt(a, b int) int {
+	if a < b {
+		return a
+	}
+	return b
 }
